@@ -203,7 +203,7 @@ def cases(rng, tier, shard, nshards):
                     yield dict(kind='grid', method=method, n=n, order=order)
     for i in range(BUDGET[tier] // nshards):
         kind = ['min', 'max', 'c'][i % 3]
-        method = str(rng.choice(METHODS))
+        method = str(rng.choice(METHODS + ['central2']))        # (central2: the Hessian-only alias, documented like central)
         n = int(rng.integers(1, 11))
         order = int(rng.integers(1, 11))
         u = rng.random()
